@@ -301,13 +301,13 @@ Proof. exact tri_neighbors_symmetric. Qed.
 Theorem C06_history_pure : forall (O : NumOps) (f_psw : unit -> psw_t (T O)) (f_nb : unit -> nb_out) P N sfs subs adapt
   (ops : list (hop (T O))),
   @run O f_psw f_nb P N sfs subs adapt st0 ops = map (@pure_obs O f_psw f_nb P N sfs subs adapt) ops.
-Proof. intros O. exact (@run_pure O). Qed.
+Proof. exact @run_pure. Qed.
 (* so the answer to a call depends neither on what was called before nor on how often *)
 Theorem C06_history_order_irrelevant : forall (O : NumOps) (f_psw : unit -> psw_t (T O)) (f_nb : unit -> nb_out) P N sfs subs adapt
   (ops1 ops2 : list (hop (T O))) k1 k2 op,
   nth_error ops1 k1 = Some op -> nth_error ops2 k2 = Some op ->
   nth_error (@run O f_psw f_nb P N sfs subs adapt st0 ops1) k1 = nth_error (@run O f_psw f_nb P N sfs subs adapt st0 ops2) k2.
-Proof. intros O. exact (@run_order_irrelevant O). Qed.
+Proof. exact @run_order_irrelevant. Qed.
 
 (* rectangular mapper: ONE matrix M (row-stochastic, non-negative, the claimed interpolation) and ONE sparse triple
    encoding it such that, in every history, every reading of mapping_matrix returns M and every reading of
